@@ -323,8 +323,10 @@ def finish(ctx, level_if_proved='proof', checker_cmd='', replayers=None):
         'violations': len(violations),
         'known_findings_reported': sorted(printed),
     }
-    os.makedirs(os.path.join(VERIF, 'evidence'), exist_ok=True)
-    with open(os.path.join(VERIF, 'evidence', pid + '.json'), 'w') as fh:
+    # runs against a scratch copy (VERIF_REPO) keep their evidence apart from the committed record
+    evdir = 'evidence' if REPO == '/repo' else 'evidence-scratch'
+    os.makedirs(os.path.join(VERIF, evdir), exist_ok=True)
+    with open(os.path.join(VERIF, evdir, pid + '.json'), 'w') as fh:
         json.dump(ev, fh, indent=1, default=repr)
     print('SUMMARY property=%s tier=%s level=%s obligations=%d discharged=%d known=%d undecided=%d '
           'bounded_evals=%s violations=%d wall=%.1fs'
